@@ -176,6 +176,25 @@ def dom_allowed_check(chk: Check) -> None:
         ok = all(tcfg.must_pass(s, [e], through) for s in starts if e.id in tcfg.reachable([s]))
         chk.ob('DOM-allowed-check', tt, ok, 'every path reaching this state entry passes the exit check for that state '
                '(or the failed-transition bypass)', node=e.ast, kind='exit-check-before-enter')
+    # the bypass of the exit check exists only while a failed transition is being routed to EXCEPTED:
+    # raised in the catch-all handler of transition_to, lowered in the finally of the same try
+    from ..report import structural_path
+    raised = [n for n in ast.walk(tt.node) if isinstance(n, (ast.Assign, ast.AugAssign, ast.AnnAssign)) and norm(n.targets[0] if isinstance(n, ast.Assign) else n.target) == 'self._transition_failing'
+              and not (getattr(n, 'value', None) is not None and norm(n.value) == 'False')]
+    ok = bool(raised) and all('except ' in structural_path(tt, n) for n in raised)
+    chk.ob('DOM-allowed-check', tt, ok, 'the exit-check bypass is raised only inside the handler of a failed transition', kind='bypass-raised-in-handler')
+    lowered = any(isinstance(t, ast.Try) and any(isinstance(x, ast.Assign) and norm(x.targets[0]) == 'self._transition_failing' and norm(x.value) == 'False' for x in t.finalbody)
+                  and all(any(r is y for y in ast.walk(t)) for r in raised) for t in ast.walk(tt.node))
+    chk.ob('DOM-allowed-check', tt, lowered, 'and lowered in the finally of that same try: the bypass never outlives the failed transition (otherwise every later '
+           'transition would skip the ALLOWED test)', kind='bypass-lowered-in-finally')
+    for f2, node in attr_writers(prog, '_transition_failing'):
+        if f2 is not tt and not (isinstance(node, ast.Attribute) and False):
+            val = None
+            for a in ast.walk(f2.node):
+                if isinstance(a, ast.Assign) and any(t is node for t in a.targets):
+                    val = norm(a.value)
+            chk.ob('DOM-allowed-check', f2, val == 'False', f'outside transition_to the bypass flag is only ever lowered (assigned {val})', node=node, kind='bypass-other-writer',
+                   expr='_transition_failing store')
     # the write of _state happens in _enter_next_state only after the ENTERING hook and do_enter
     en = prog.func('base.state_machine.StateMachine._enter_next_state')
     chk.ob('DOM-allowed-check', en, any(f is en for f, _ in attr_writers(prog, '_state')),
